@@ -26,7 +26,7 @@ import (
 	"verifharness/ev"
 )
 
-const rule = "case = generated genesis + history of 6-20 blocks; at generated points a correctly signed, correctly sequenced transaction f of a generated signer is taken and 10-40 adversarial derivatives are each executed ALONE in an uncommitted block with an exact " +
+const rule = "case = generated genesis + history of 6-20 blocks; at generated points a correctly signed, correctly sequenced transaction f of a generated signer is taken and 10-40 adversarial derivatives are each executed ALONE in an uncommitted block - once on the proposer's path (PrepareProposal, ProcessProposal, BeginBlock, DeliverTx) and once the way a node executes a block it only learns of when it is decided (BeginBlock, DeliverTx), the per-transaction results of the two must be equal - with an exact " +
 	"working-state diff: single-bit flips anywhere (envelope, blob, public key, signature), CBOR envelope re-encodings, signature by another key over the same blob, signature over the blob under every other registered signature context (list obtained " +
 	"through a verif hook), signature for another chain context, the blob signed raw without context, nonce +-1 / max re-signed, exact replay inside one block, replay in later blocks and after a restart of the disk-backed replica. " +
 	"oracle = a byte string changes state ONLY IF an independent check passes (envelope decodes, stdlib crypto/ed25519 verifies the signature over the harness-computed digest SHA-512/256(tx context || ' for chain ' || this chain || blob), nonce == account nonce); " +
@@ -122,9 +122,20 @@ func TestC09Authenticity(t *testing.T) {
 					return
 				}
 				effect := func(tag string, raws ...[]byte) (bool, chain.StateDump, []string) {
-					_, w, err := chain.Probe(r, b, tag, raws)
+					res1, w, err := chain.Probe(r, b, tag, raws)
 					if err != nil {
 						fail("probe-panic", "executing derivative (%s) panicked: %v", tag, err)
+					}
+					// the same bytes in a block this node only learns of once it is decided (block sync, replay after a restart):
+					// whether a byte string is accepted must not depend on the path the block is executed on
+					res2, _, err := chain.ProbeReplay(r, b, tag, raws)
+					if err != nil {
+						fail("probe-panic", "executing derivative (%s) without a proposal phase panicked: %v", tag, err)
+					}
+					for i := range raws {
+						if i >= len(res1) || i >= len(res2) || res1[i].Code != res2[i].Code || res1[i].Codespace != res2[i].Codespace {
+							fail("verdict-depends-on-execution-path", "derivative (%s) transaction %d: result %s/%d on the proposer's path, %s/%d on the path of a node that only executes the decided block", tag, i, res1[i].Codespace, res1[i].Code, res2[i].Codespace, res2[i].Code)
+						}
 					}
 					d := chain.Diff(base, w)
 					return len(d) > 0, w, d
